@@ -182,23 +182,30 @@ func (s *Server) handleConn(c *Conn) error {
 				return nil
 			}
 		} else {
-			if err == io.EOF || errors.Is(err, net.ErrClosed) {
-				return nil
-			}
-			if err == ErrTooLongLine {
-				c.writeResponse(500, EnhancedCode{5, 4, 0}, "Too long line, closing connection")
-				return nil
-			}
-
-			if neterr, ok := err.(net.Error); ok && neterr.Timeout() {
-				c.writeResponse(421, EnhancedCode{4, 4, 2}, "Idle timeout, bye bye")
-				return nil
-			}
-
-			c.writeResponse(421, EnhancedCode{4, 4, 0}, "Connection error, sorry")
-			return err
+			return c.readFailed(err)
 		}
 	}
+}
+
+// readFailed tells the peer, where that makes sense, why the connection is
+// given up after a line could not be read, and returns what handleConn is to
+// return.
+func (c *Conn) readFailed(err error) error {
+	if err == io.EOF || errors.Is(err, net.ErrClosed) {
+		return nil
+	}
+	if err == ErrTooLongLine {
+		c.writeResponse(500, EnhancedCode{5, 4, 0}, "Too long line, closing connection")
+		return nil
+	}
+
+	if neterr, ok := err.(net.Error); ok && neterr.Timeout() {
+		c.writeResponse(421, EnhancedCode{4, 4, 2}, "Idle timeout, bye bye")
+		return nil
+	}
+
+	c.writeResponse(421, EnhancedCode{4, 4, 0}, "Connection error, sorry")
+	return err
 }
 
 func (s *Server) network() string {
